@@ -3,24 +3,50 @@
 #ifndef TETL_CMATH_REMAINDER_HPP
 #define TETL_CMATH_REMAINDER_HPP
 
+#include <etl/_config/all.hpp>
+
 #include <etl/_3rd_party/gcem/gcem.hpp>
+#include <etl/_type_traits/is_constant_evaluated.hpp>
+#include <etl/_type_traits/is_same.hpp>
 
 namespace etl {
 
-/// Computes the remainder of the floating point division operation x/y.
-/// \details https://en.cppreference.com/w/cpp/numeric/math/remainder
-/// \ingroup cmath
-[[nodiscard]] constexpr auto remainder(float x, float y) noexcept -> float { return etl::detail::gcem::fmod(x, y); }
+namespace detail {
+
+template <typename T>
+[[nodiscard]] constexpr auto remainder(T x, T y) noexcept -> T
+{
+    if (not is_constant_evaluated()) {
+        if constexpr (is_same_v<T, float>) {
+#if __has_builtin(__builtin_remainderf)
+            return __builtin_remainderf(x, y);
+#endif
+        }
+        if constexpr (is_same_v<T, double>) {
+#if __has_builtin(__builtin_remainder)
+            return __builtin_remainder(x, y);
+#endif
+        }
+    }
+    return detail::gcem::fmod(x, y);
+}
+
+} // namespace detail
 
 /// Computes the remainder of the floating point division operation x/y.
 /// \details https://en.cppreference.com/w/cpp/numeric/math/remainder
 /// \ingroup cmath
-[[nodiscard]] constexpr auto remainderf(float x, float y) noexcept -> float { return etl::detail::gcem::fmod(x, y); }
+[[nodiscard]] constexpr auto remainder(float x, float y) noexcept -> float { return etl::detail::remainder(x, y); }
 
 /// Computes the remainder of the floating point division operation x/y.
 /// \details https://en.cppreference.com/w/cpp/numeric/math/remainder
 /// \ingroup cmath
-[[nodiscard]] constexpr auto remainder(double x, double y) noexcept -> double { return etl::detail::gcem::fmod(x, y); }
+[[nodiscard]] constexpr auto remainderf(float x, float y) noexcept -> float { return etl::detail::remainder(x, y); }
+
+/// Computes the remainder of the floating point division operation x/y.
+/// \details https://en.cppreference.com/w/cpp/numeric/math/remainder
+/// \ingroup cmath
+[[nodiscard]] constexpr auto remainder(double x, double y) noexcept -> double { return etl::detail::remainder(x, y); }
 
 /// Computes the remainder of the floating point division operation x/y.
 /// \details https://en.cppreference.com/w/cpp/numeric/math/remainder
